@@ -183,6 +183,17 @@ theorem same_more (k : Nat) (acc : Bytes) : Same (readCharS.more k acc) := by
   | zero => unfold readCharS.more; same_tac
   | succ k ih => unfold readCharS.more; repeat' (first | exact ih _ | same_step)
 
+theorem same_readKey_more (k : Nat) : Same (readKey.more k) := by
+  induction k with
+  | zero => unfold readKey.more; same_tac
+  | succ k ih => unfold readKey.more; repeat' (first | exact ih | same_step)
+
+/-- `led_readkey()` touches only the key queue, like `termRead` -/
+theorem same_readKey : Same readKey := by
+  unfold readKey
+  repeat' (first | exact same_readKey_more _ | same_step)
+macro_rules | `(tactic| same_leaf) => `(tactic| with_reducible exact same_readKey)
+
 theorem same_readCharS (c : Int) (kmap : Nat) : Same (readCharS c kmap) := by
   unfold readCharS
   repeat' (first | exact same_more _ _ | same_step)
